@@ -65,6 +65,7 @@ type FuncContract struct {
 	PanicsIf    []Clause
 	Extern      bool           // declared in an ext (.gowp) file
 	Ghosts      []GhostLoopVar // function-level ghost variables
+	UnblocksOn  []Expr         // every blocking channel operation must be able to fire a receive on one of these channels
 	Durable     bool           // a durable step: callers assert their crash invariant after it
 	Crash       []Clause       // crashstates: holds at every crash point inside the function
 }
@@ -130,7 +131,7 @@ var labelRe = regexp.MustCompile(`^([A-Za-z][A-Za-z0-9_\-]*):(?:[^:]|$)`)
 var clauseKW = map[string]bool{
 	"requires": true, "ensures": true, "modifies": true, "loop": true, "assume-only": true, "pure": true,
 	"inline": true, "assert": true, "assume": true, "props": true, "noframe": true, "fresh": true, "panics_if": true, "ghost": true,
-	"durable": true, "crashstates": true, "havoc": true, "guards": true, "invariant": true,
+	"durable": true, "crashstates": true, "havoc": true, "guards": true, "invariant": true, "unblocks_on": true,
 }
 var topKW = map[string]bool{
 	"func": true, "define": true, "abstract": true, "sort": true, "axiom": true, "ghost": true, "package": true, "ignore": true, "implements": true,
@@ -437,6 +438,12 @@ func ParseSpecFile(path string, pkgPath string) (*SpecFile, error) {
 			}
 			cur.Modifies = append(cur.Modifies, locs...)
 			cur.ModAll = cur.ModAll || all
+		case "unblocks_on":
+			locs, _, err := parseLocs(rest, it.line)
+			if err != nil {
+				return nil, err
+			}
+			cur.UnblocksOn = append(cur.UnblocksOn, locs...)
 		case "durable":
 			cur.Durable = true
 		case "crashstates":
